@@ -28,6 +28,7 @@ class Script:
         self.enter_returns = enter_returns   # generator-function kinds only: return `ret` before the first yield
         self.tock0 = tock0          # the doer's own .tock attribute (what plain doers yield by default)
         self.faults = {}            # step -> (act, arg)
+        self.on_cease = None        # (act, arg) performed from inside the cease hook (class doers only)
 
     def act(self, step):
         if step in self.faults:
@@ -136,6 +137,8 @@ class PlainDoer(doing.Doer):
 
     def cease(self):
         self.w.ev(self.s.name, 'cease')
+        if self.s.on_cease:
+            self.w.perform(self.s.name, *self.s.on_cease)
 
     def abort(self, ex):
         self.w.ev(self.s.name, 'abort')
